@@ -1966,7 +1966,7 @@ const BUILD_CELLS: [&str; 27] = [
 
 pub fn run(args: &Args) {
     let mut cx = Ctx {
-        sum: Summary::new("C03", "operation histories (put/put_batch/remove/get/contains/size/len/save-load, 3..60 ops, ids drawn from issued/removed/never-issued/0/MAX; records empty, 1 byte, equal-length, 4 KiB compressible, incompressible, lengths around 64/128/256/4096) over every store type and wrapper stack, judged against a shadow map; bulk builders (record counts around the offset-index block sizes 64/128) read back in full, then saved, loaded and read back again; a case is non-trivial when it has >=3 operations or >=2 records; distinct = distinct canonical case text"),
+        sum: Summary::new("C03", "operation histories (put/put_batch/remove/remove_batch/get/get_batch/contains/size/len/save-load and the secondary entry points of each store: iteration, housekeeping calls, Clone, clear, retraining, re-wrapping, finalize; 3..60 ops, scripted entry-point, threshold-size and many-record histories, ids drawn from issued/removed/never-issued/0/MAX; records empty, 1 byte, equal-length, 4 KiB compressible, incompressible, lengths around 64/128/256/4096) over every store type and wrapper stack, judged against a shadow map; bulk builders (record counts around the offset-index block sizes 64/128) read back in full, then saved, loaded and read back again; a case is non-trivial when it has >=3 operations or >=2 records; distinct = distinct canonical case text"),
         shards: CoqShards::new(HEADER, 300),
         budget: if args.thorough { 6000 } else { 1200 },
         n_hist: 0,
@@ -2041,6 +2041,8 @@ pub fn run(args: &Args) {
         for k in 0..(if args.thorough { 160u64 } else { 48 }) {
             let len = 10 + (k * 7 + args.seed) % 53;
             let kind = [5u64, 2, 5, 4, 5, 0][(k % 6) as usize];
+            // every 8th record is long and literal-heavy (two-symbol / counting bytes the dictionary does not know): the stage pays off there too
+            let (kind, len) = if k % 8 == 5 { ([4u64, 3, 4, 0][(k / 8 % 4) as usize], 300 + (k * 131 + args.seed * 7) % 4000) } else { (kind, len) };
             ops.push(json!(["put", [kind, len, 600 + k * 13 + i as u64 + args.seed % 97]]));
             if k % 4 == 3 { ops.push(json!(["get", {"i": k as usize}])); }
         }
